@@ -173,6 +173,16 @@ def corpus(ctx):
     pred[0, 9] = 2
     for dm, t in (("IOU", (1, 2)), ("DSC", (1, 2)), ("IOU", (1, 9))):
         pipeline_case(ctx, pred, ref, E.mk_cfg("MATCHED", ["IOU", "DSC"], decision=[dm, {"q": list(t)}]), "corpus.decision-fails")
+    # a decision threshold of exactly zero, configured on the evaluator: IoU / Dice accept every matched pair, ASSD only perfect ones
+    r0 = np.zeros((1, 30), np.uint8)
+    p0 = np.zeros((1, 30), np.uint8)
+    r0[0, 0:9], r0[0, 12:20], r0[0, 24:28] = 1, 2, 3
+    p0[0, 0:9], p0[0, 14:22], p0[0, 25:29] = 1, 2, 3
+    for it in ("MATCHED", "UNMATCHED"):
+        for dm in ("IOU", "DSC", "ASSD"):
+            ctx.count("decision_threshold_zero")
+            pipeline_case(ctx, p0, r0, E.mk_cfg(it, ["IOU", "DSC", "ASSD"], matcher=E.naive("IOU", (1, 4)) if it != "MATCHED" else None, decision=[dm, {"q": [0, 1]}]),
+                          "corpus.decision-zero")
     # unmatched input, exactly one side empty (fp/fn must not be exchanged)
     e = np.zeros((4, 4), np.uint8)
     f = e.copy()
